@@ -1,26 +1,15 @@
 (* C17, output side continued — decoding what the encoder emitted gives the value back (the octets the
-   encoder cuts off are zero), and the emitted octet count is NOT the RFC count (KF2, KF3). *)
+   encoder cuts off are zero); the emitted octet count is the RFC 3123 count for every APL item (KF3
+   repaired) and the RFC 7871 count for every ECS value outside one class (KF2, narrowed). *)
 From Coq Require Import ZArith ZifyBool ZifyN ZifyNat.
-From DNS Require Import Model.Values Model.Dec Model.Enc Proofs.DecBase Proofs.C12 Proofs.C17Dec Proofs.C17Enc
-  Proofs.C17.
+From DNS Require Import Proofs.EncTotal Model.Values Model.Dec Model.Enc Proofs.DecBase Proofs.C12 Proofs.C17Dec
+  Proofs.C17Enc Proofs.C17.
 Local Open Scope N_scope.
 Ltac Zify.zify_post_hook ::= Z.div_mod_to_equations.
 
 (* ================================================================================================ *)
 (* 3. Round trip                                                                                     *)
 (* ================================================================================================ *)
-
-(* every octet from index prefix/8 + 1 on is zero: all its bits lie beyond the prefix *)
-Lemma tail_zero (a : addr) (p : N) : addr_wf a -> prefix_ok a p ->
-  forall k, emit_count p (addr_size a) <= k < lenN (a_oct a) -> nth (N.to_nat k) (a_oct a) 0 = 0.
-Proof.
-  intros Hwf [Hp Hbits] k [Hk1 Hk2]. rewrite (addr_wf_len a Hwf) in Hk2.
-  destruct Hwf as [_ Hoct].
-  apply octet_zero_spec; [apply Forall_nth_lt; exact Hoct|].
-  intros j Hj. specialize (Hbits (8 * k + j)). unfold addr_bit in Hbits.
-  destruct (divmod8_unique k j Hj) as [Hq Hr]. rewrite Hq, Hr in Hbits. apply Hbits.
-  unfold emit_count in Hk1. lia.
-Qed.
 
 Lemma zeros_of_forallb : forall l : bytes, forallb (N.eqb 0) l = true -> l = zeros (length l).
 Proof.
@@ -29,13 +18,13 @@ Proof.
   cbn [length zeros]. f_equal. apply IH. exact H2.
 Qed.
 
-Lemma cut_refill (a : addr) (p : N) : addr_wf a -> prefix_ok a p ->
-  takeN (emit_count p (addr_size a)) (a_oct a)
-    ++ zeros (N.to_nat (addr_size a - emit_count p (addr_size a))) = a_oct a.
+(* the octets cut off lie behind the last non-zero octet: zero-filling gives them back (no appeal to the
+   prefix is needed) *)
+Lemma cut_refill (a : addr) (cnt : N) : addr_wf a -> addr_significant (a_oct a) <= cnt -> cnt <= addr_size a ->
+  takeN cnt (a_oct a) ++ zeros (N.to_nat (addr_size a - cnt)) = a_oct a.
 Proof.
-  intros Hwf Hok. set (cnt := emit_count p (addr_size a)).
-  assert (Hz : forallb (N.eqb 0) (dropN cnt (a_oct a)) = true).
-  { apply rest_zero_spec. apply tail_zero; assumption. }
+  intros Hwf Hsig Hle.
+  pose proof (addr_significant_dropped (a_oct a) cnt Hsig) as Hz.
   apply zeros_of_forallb in Hz.
   assert (Hl : length (dropN cnt (a_oct a)) = N.to_nat (addr_size a - cnt)).
   { unfold dropN. rewrite skipn_length. pose proof (addr_wf_len a Hwf) as H. unfold lenN in H. lia. }
@@ -44,7 +33,7 @@ Qed.
 
 Theorem emit_roundtrip_apitem : forall (i : apitem) (s : dst) (rest : bytes),
   apitem_inv i -> dst_wf s -> d_rest s = apitem_wire i ++ rest ->
-  let cnt := emit_count (i_prefix i) (addr_size (i_addr i)) in
+  let cnt := addr_significant (a_oct (i_addr i)) in
   lenN (apitem_wire i) = 4 + cnt /\
   rr_apl_apitem s =
     DOk i {| d_rest := rest; d_off := d_off s + (4 + cnt); d_len := d_len s;
@@ -53,7 +42,8 @@ Proof.
   intros i s rest [Hwf Hok] W Hr cnt.
   pose proof (addr_wf_fam _ Hwf) as Hfam.
   pose proof (addr_size_cases (i_addr i)) as Hs.
-  pose proof (emit_count_le (i_prefix i) (addr_size (i_addr i))) as Hcle. fold cnt in Hcle.
+  pose proof (addr_significant_le (a_oct (i_addr i))) as Hcle. rewrite (addr_wf_len _ Hwf) in Hcle.
+  fold cnt in Hcle.
   set (a := takeN cnt (a_oct (i_addr i))).
   assert (Ha : lenN a = cnt).
   { unfold a. rewrite lenN_takeN_, (addr_wf_len _ Hwf). lia. }
@@ -68,7 +58,7 @@ Proof.
   destruct (accept_apitem s 0 (a_fam (i_addr i)) (i_prefix i) (i_neg i) a rest W Hk Hr) as (Hacc & _).
   cbv zeta in Hacc. change (0 * 256 + a_fam (i_addr i)) with (a_fam (i_addr i)) in Hacc.
   assert (Hfill : a ++ zeros (N.to_nat (fam_size (a_fam (i_addr i)) - lenN a)) = a_oct (i_addr i)).
-  { rewrite Ha. exact (cut_refill (i_addr i) (i_prefix i) Hwf Hok). }
+  { rewrite Ha. apply (cut_refill (i_addr i) cnt Hwf); [unfold cnt; lia|exact Hcle]. }
   rewrite Hfill, Ha in Hacc.
   rewrite Hacc.
   - destruct i as [p n [f o]]. reflexivity.
@@ -93,28 +83,28 @@ Qed.
 
 (* ECS: the option body (behind OPTION-CODE and OPTION-LENGTH) *)
 Definition ecs_body (e : ecs) : bytes :=
-  let cnt := emit_count (ecs_prefix e) (addr_size (e_addr e)) in
+  let cnt := N.max (addr_significant (a_oct (e_addr e))) ((e_src e + 7) / 8) in
   u16b (a_fam (e_addr e)) ++ [e_src e mod 256] ++ [e_scope e mod 256] ++ takeN cnt (a_oct (e_addr e)).
 
 Lemma ecs_wire_body (e : ecs) :
-  ecs_wire e = u16b 8 ++ u16b (4 + emit_count (ecs_prefix e) (addr_size (e_addr e))) ++ ecs_body e /\
-  lenN (ecs_body e) = 4 + lenN (takeN (emit_count (ecs_prefix e) (addr_size (e_addr e))) (a_oct (e_addr e))).
+  ecs_wire e = u16b 8 ++ u16b (4 + ecs_count e) ++ ecs_body e /\
+  lenN (ecs_body e) = 4 + lenN (takeN (ecs_count e) (a_oct (e_addr e))).
 Proof.
   split; [reflexivity|]. unfold ecs_body. cbv zeta. rewrite !lenN_app_. unfold u16b, lenN at 1 2 3.
-  cbn [length]. lia.
+  cbn [length]. unfold ecs_count, emit_count. lia.
 Qed.
 
 Theorem emit_roundtrip_ecs : forall (e : ecs) (s : dst),
   ecs_inv e -> dst_wf s -> d_rest s = ecs_body e ->
-  let cnt := emit_count (ecs_prefix e) (addr_size (e_addr e)) in
+  let cnt := N.max (addr_significant (a_oct (e_addr e))) ((e_src e + 7) / 8) in
   lenN (ecs_body e) = 4 + cnt /\
   rr_edns_ecs s =
     DOk e {| d_rest := []; d_off := d_off s + (4 + cnt); d_len := d_len s; d_cost := d_cost s + (4 + cnt) |}.
 Proof.
-  intros e s [Hwf Hok] W Hr cnt. fold (ecs_prefix e) in Hok.
+  intros e s Hinv W Hr cnt. pose proof Hinv as [Hwf Hok]. fold (ecs_prefix e) in Hok.
   pose proof (addr_wf_fam _ Hwf) as Hfam.
   pose proof (addr_size_cases (e_addr e)) as Hs.
-  pose proof (emit_count_le (ecs_prefix e) (addr_size (e_addr e))) as Hcle. fold cnt in Hcle.
+  pose proof (ecs_count_le e Hwf (ecs_inv_src e Hinv)) as Hcle. change (ecs_count e) with cnt in Hcle.
   set (a := takeN cnt (a_oct (e_addr e))).
   assert (Ha : lenN a = cnt).
   { unfold a. rewrite lenN_takeN_, (addr_wf_len _ Hwf). lia. }
@@ -130,7 +120,7 @@ Proof.
   destruct (accept_ecs s 0 (a_fam (e_addr e)) (e_src e) (e_scope e) a W Hr) as (Hacc & _).
   cbv zeta in Hacc. change (0 * 256 + a_fam (e_addr e)) with (a_fam (e_addr e)) in Hacc.
   assert (Hfill : a ++ zeros (N.to_nat (fam_size (a_fam (e_addr e)) - lenN a)) = a_oct (e_addr e)).
-  { rewrite Ha. exact (cut_refill (e_addr e) (ecs_prefix e) Hwf Hok). }
+  { rewrite Ha. apply (cut_refill (e_addr e) cnt Hwf); [unfold cnt; lia|exact Hcle]. }
   rewrite Hfill, Ha in Hacc.
   rewrite Hacc.
   - destruct e as [sr sc [f o]]. reflexivity.
@@ -139,8 +129,27 @@ Proof.
     destruct (e_addr e) as [f o]. exact Hok.
 Qed.
 
+(* encoder output (option header included) and the decoder run on the option body *)
+Theorem emit_roundtrip_ecs_wire : forall (e : ecs) (st : est), ecs_inv e ->
+  let cnt := N.max (addr_significant (a_oct (e_addr e))) ((e_src e + 7) / 8) in
+  enc_ecs e st = EOk tt {| e_buf := e_buf st ++ u16b 8 ++ u16b (4 + cnt) ++ ecs_body e;
+                           e_idx := e_idx st; e_names := e_names st |} /\
+  lenN (ecs_body e) = 4 + cnt /\
+  forall s : dst, dst_wf s -> d_rest s = ecs_body e ->
+    rr_edns_ecs s = DOk e {| d_rest := []; d_off := d_off s + (4 + cnt); d_len := d_len s;
+                             d_cost := d_cost s + (4 + cnt) |}.
+Proof.
+  intros e st Hinv cnt.
+  split; [rewrite (enc_ecs_eq e st (proj1 Hinv) (ecs_inv_src e Hinv)); reflexivity|].
+  split.
+  - destruct (ecs_wire_body e) as [_ H]. rewrite H. change (ecs_count e) with cnt.
+    rewrite lenN_takeN_, (addr_wf_len _ (proj1 Hinv)).
+    pose proof (ecs_count_le e (proj1 Hinv) (ecs_inv_src e Hinv)) as Hc. change (ecs_count e) with cnt in Hc. lia.
+  - intros s W Hr. exact (proj2 (emit_roundtrip_ecs e s Hinv W Hr)).
+Qed.
+
 (* ================================================================================================ *)
-(* 4. The RFC counts, and their refutation                                                           *)
+(* 4. The RFC counts                                                                                 *)
 (* ================================================================================================ *)
 
 (* RFC 7871 section 6: ADDRESS "MUST be truncated to the number of bits indicated by the SOURCE
@@ -155,143 +164,109 @@ Fixpoint rfc3123_count (l : bytes) : N :=
   | b :: r => if (rfc3123_count r =? 0) && (b =? 0) then 0 else rfc3123_count r + 1
   end.
 
-Lemma nthN_succ_cons {A} (n : N) (x : A) (l : list A) : nthN (n + 1) (x :: l) = nthN n l.
-Proof. unfold nthN. replace (N.to_nat (n + 1)) with (S (N.to_nat n)) by lia. reflexivity. Qed.
-Lemma dropN_succ_cons {A} (n : N) (x : A) (l : list A) : dropN (n + 1) (x :: l) = dropN n l.
-Proof. unfold dropN. replace (N.to_nat (n + 1)) with (S (N.to_nat n)) by lia. reflexivity. Qed.
-
-(* the definition is the intended one *)
-Lemma rfc3123_count_spec : forall l : bytes,
-  rfc3123_count l <= lenN l /\
-  forallb (N.eqb 0) (dropN (rfc3123_count l) l) = true /\
-  (rfc3123_count l = 0 \/ exists x, nthN (rfc3123_count l - 1) l = Some x /\ x <> 0).
+(* the encoder's "significant octets" (a search from the back) are exactly that count *)
+Lemma significant_rfc3123 : forall l : bytes, addr_significant l = rfc3123_count l.
 Proof.
-  induction l as [|b r (IH1 & IH2 & IH3)]; [split; [reflexivity|split; [reflexivity|left; reflexivity]]|].
-  cbn [rfc3123_count]. rewrite lenN_cons.
-  destruct (rfc3123_count r =? 0) eqn:Ec; [apply N.eqb_eq in Ec|apply N.eqb_neq in Ec];
-  destruct (b =? 0) eqn:Eb; [apply N.eqb_eq in Eb|apply N.eqb_neq in Eb| |]; cbn [andb].
-  - split; [lia|]. split; [|left; reflexivity].
-    rewrite Ec in IH2. change (dropN 0 r) with r in IH2. change (dropN 0 (b :: r)) with (b :: r).
-    cbn [forallb]. rewrite IH2, Eb. reflexivity.
-  - split; [lia|]. rewrite dropN_succ_cons. split; [exact IH2|]. right. exists b.
-    rewrite Ec. split; [reflexivity|exact Eb].
-  - split; [lia|]. rewrite dropN_succ_cons. split; [exact IH2|]. right.
-    destruct IH3 as [IH3|(x & Hx1 & Hx2)]; [contradiction|]. exists x. split; [|exact Hx2].
-    replace (rfc3123_count r + 1 - 1) with (rfc3123_count r - 1 + 1) by lia.
-    rewrite nthN_succ_cons. exact Hx1.
-  - split; [lia|]. rewrite dropN_succ_cons. split; [exact IH2|]. right.
-    destruct IH3 as [IH3|(x & Hx1 & Hx2)]; [contradiction|]. exists x. split; [|exact Hx2].
-    replace (rfc3123_count r + 1 - 1) with (rfc3123_count r - 1 + 1) by lia.
-    rewrite nthN_succ_cons. exact Hx1.
+  induction l as [|b r IH]; [apply addr_significant_nil|].
+  rewrite addr_significant_cons, IH. reflexivity.
 Qed.
 
-(* ECS, general: with scope <= source <= 8*size the emitted count is the RFC count or one more, and
-   equals it exactly when the source prefix is not a multiple of 8 or is the full address *)
-Theorem ecs_count_vs_rfc : forall src scope size : N, scope <= src -> src <= 8 * size ->
-  (rfc7871_count src <= emit_count (N.max src scope) size <= rfc7871_count src + 1) /\
-  (emit_count (N.max src scope) size = rfc7871_count src <-> src mod 8 <> 0 \/ src = 8 * size).
-Proof. intros src scope size H1 H2. unfold emit_count, rfc7871_count. split; [lia|]. lia. Qed.
-
-(* ... and a scope prefix larger than the source prefix makes the address longer still *)
-Theorem ecs_count_follows_scope : forall src scope size : N, src <= scope -> scope <= 8 * size ->
-  emit_count (N.max src scope) size = emit_count scope size /\
-  rfc7871_count src <= emit_count scope size.
-Proof. intros src scope size H1 H2. unfold emit_count, rfc7871_count. split; lia. Qed.
-
-(* APL, general: the encoder never cuts off a non-zero octet, i.e. it emits at least the RFC count *)
-Theorem apl_count_ge_rfc : forall i : apitem, apitem_inv i ->
-  rfc3123_count (a_oct (i_addr i)) <= emit_count (i_prefix i) (addr_size (i_addr i)).
-Proof.
-  intros i [Hwf Hok].
-  destruct (rfc3123_count_spec (a_oct (i_addr i))) as (H1 & _ & [H3|(x & Hx1 & Hx2)]); [lia|].
-  destruct (N.le_gt_cases (rfc3123_count (a_oct (i_addr i))) (emit_count (i_prefix i) (addr_size (i_addr i))))
-    as [Hle|Hgt]; [exact Hle|exfalso].
-  pose proof (emit_count_pos (i_prefix i) (addr_size (i_addr i))) as Hpos.
-  assert (Hz : nth (N.to_nat (rfc3123_count (a_oct (i_addr i)) - 1)) (a_oct (i_addr i)) 0 = 0).
-  { apply (tail_zero (i_addr i) (i_prefix i) Hwf Hok). lia. }
-  unfold nthN in Hx1. rewrite nth_opt_nth in Hx1 by (unfold lenN in H1; lia).
-  injection Hx1 as Hx1. rewrite Hz in Hx1. apply Hx2. symmetry. exact Hx1.
-Qed.
-
-(* -- witnesses: the encoder run on concrete values -- *)
+(* the number of address octets, read off the encoder's output *)
 Definition apl_emitted (i : apitem) : option N :=
   match enc_apitem i e_init with EOk _ st => Some (lenN (e_buf st) - 4) | _ => None end.
 Definition ecs_emitted (e : ecs) : option N :=
   match enc_ecs e e_init with EOk _ st => Some (lenN (e_buf st) - 8) | _ => None end.
 
-Definition v4 (o : bytes) : addr := {| a_fam := 1; a_oct := o |}.
-Definition w_apl24 : apitem := {| i_prefix := 24; i_neg := false; i_addr := v4 [10; 0; 0; 0] |}.
-Definition w_apl0 : apitem := {| i_prefix := 0; i_neg := false; i_addr := v4 [0; 0; 0; 0] |}.
-Definition w_ecs24 : ecs := {| e_src := 24; e_scope := 0; e_addr := v4 [10; 0; 0; 0] |}.
-Definition w_ecs0 : ecs := {| e_src := 0; e_scope := 0; e_addr := v4 [0; 0; 0; 0] |}.
-Definition w_ecs_scope : ecs := {| e_src := 8; e_scope := 24; e_addr := v4 [10; 0; 0; 0] |}.
-
-Lemma v4_wf o : lenN o = 4 -> Forall (fun x => x < 256) o -> addr_wf (v4 o).
-Proof. intros H1 H2. split; [left; split; [reflexivity|exact H1]|exact H2]. Qed.
-Lemma v4_10_wf : addr_wf (v4 [10; 0; 0; 0]).
-Proof. apply v4_wf; [reflexivity|]. repeat constructor. Qed.
-Lemma v4_0_wf : addr_wf (v4 [0; 0; 0; 0]).
-Proof. apply v4_wf; [reflexivity|]. repeat constructor. Qed.
-
-Lemma w_apl24_inv : apitem_inv w_apl24.
-Proof. split; [exact v4_10_wf|]. apply check_prefix_ok; [exact v4_10_wf|vm_compute; reflexivity]. Qed.
-Lemma w_apl0_inv : apitem_inv w_apl0.
-Proof. split; [exact v4_0_wf|]. apply check_prefix_ok; [exact v4_0_wf|vm_compute; reflexivity]. Qed.
-Lemma w_ecs24_inv : ecs_inv w_ecs24.
-Proof. split; [exact v4_10_wf|]. apply check_prefix_ok; [exact v4_10_wf|vm_compute; reflexivity]. Qed.
-Lemma w_ecs0_inv : ecs_inv w_ecs0.
-Proof. split; [exact v4_0_wf|]. apply check_prefix_ok; [exact v4_0_wf|vm_compute; reflexivity]. Qed.
-Lemma w_ecs_scope_inv : ecs_inv w_ecs_scope.
-Proof. split; [exact v4_10_wf|]. apply check_prefix_ok; [exact v4_10_wf|vm_compute; reflexivity]. Qed.
-
-Theorem emit_rfc_refuted :
-  (* KF3: APL 10.0.0.0/24 — four address octets emitted, RFC 3123 mandates one *)
-  (apitem_inv w_apl24 /\
-   enc_apitem w_apl24 e_init = EOk tt {| e_buf := [0; 1; 24; 4; 10; 0; 0; 0]; e_idx := []; e_names := [] |} /\
-   apl_emitted w_apl24 = Some 4 /\ rfc3123_count (a_oct (i_addr w_apl24)) = 1) /\
-  (* KF3: APL 0.0.0.0/0 — one (zero) octet emitted, RFC 3123 mandates none *)
-  (apitem_inv w_apl0 /\
-   enc_apitem w_apl0 e_init = EOk tt {| e_buf := [0; 1; 0; 1; 0]; e_idx := []; e_names := [] |} /\
-   apl_emitted w_apl0 = Some 1 /\ rfc3123_count (a_oct (i_addr w_apl0)) = 0) /\
-  (* KF2: ECS 10.0.0.0 source 24 scope 0 — four octets emitted, RFC 7871 mandates three *)
-  (ecs_inv w_ecs24 /\
-   enc_ecs w_ecs24 e_init =
-     EOk tt {| e_buf := [0; 8; 0; 8; 0; 1; 24; 0; 10; 0; 0; 0]; e_idx := []; e_names := [] |} /\
-   ecs_emitted w_ecs24 = Some 4 /\ rfc7871_count (e_src w_ecs24) = 3) /\
-  (* KF2: ECS source 0 — one octet emitted, RFC 7871 mandates none *)
-  (ecs_inv w_ecs0 /\
-   enc_ecs w_ecs0 e_init = EOk tt {| e_buf := [0; 8; 0; 5; 0; 1; 0; 0; 0]; e_idx := []; e_names := [] |} /\
-   ecs_emitted w_ecs0 = Some 1 /\ rfc7871_count (e_src w_ecs0) = 0) /\
-  (* KF2: the count follows max(source, scope): source 8, scope 24 — four octets, RFC mandates one *)
-  (ecs_inv w_ecs_scope /\ ecs_emitted w_ecs_scope = Some 4 /\ rfc7871_count (e_src w_ecs_scope) = 1) /\
-  (* hence neither RFC rule holds of the encoder *)
-  ~ (forall i, apitem_inv i -> apl_emitted i = Some (rfc3123_count (a_oct (i_addr i)))) /\
-  ~ (forall e, ecs_inv e -> ecs_emitted e = Some (rfc7871_count (e_src e))).
+Lemma apl_emitted_eq (i : apitem) : apitem_inv i -> apl_emitted i = Some (addr_significant (a_oct (i_addr i))).
 Proof.
-  split; [split; [exact w_apl24_inv|vm_compute; split; [|split]; reflexivity]|].
-  split; [split; [exact w_apl0_inv|vm_compute; split; [|split]; reflexivity]|].
-  split; [split; [exact w_ecs24_inv|vm_compute; split; [|split]; reflexivity]|].
-  split; [split; [exact w_ecs0_inv|vm_compute; split; [|split]; reflexivity]|].
-  split; [split; [exact w_ecs_scope_inv|vm_compute; split; reflexivity]|].
-  split.
-  - intros H. specialize (H w_apl24 w_apl24_inv). vm_compute in H. discriminate H.
-  - intros H. specialize (H w_ecs24 w_ecs24_inv). vm_compute in H. discriminate H.
+  intros Hinv. unfold apl_emitted. rewrite (enc_apitem_eq i e_init (proj1 Hinv)). cbn [e_buf e_init app].
+  f_equal. unfold apitem_wire. cbv zeta. rewrite !lenN_app_.
+  pose proof (addr_significant_le (a_oct (i_addr i))) as Hle.
+  rewrite lenN_takeN_. unfold u16b, lenN at 1 2 3. cbn [length]. lia.
 Qed.
 
-(* encoder output (option header included) and the decoder run on the option body *)
-Theorem emit_roundtrip_ecs_wire : forall (e : ecs) (st : est), ecs_inv e ->
-  let cnt := emit_count (ecs_prefix e) (addr_size (e_addr e)) in
-  enc_ecs e st = EOk tt {| e_buf := e_buf st ++ u16b 8 ++ u16b (4 + cnt) ++ ecs_body e;
-                           e_idx := e_idx st; e_names := e_names st |} /\
-  lenN (ecs_body e) = 4 + cnt /\
-  forall s : dst, dst_wf s -> d_rest s = ecs_body e ->
-    rr_edns_ecs s = DOk e {| d_rest := []; d_off := d_off s + (4 + cnt); d_len := d_len s;
-                             d_cost := d_cost s + (4 + cnt) |}.
+(* APL: the RFC 3123 count, for EVERY valid item (KF3 is repaired) *)
+Theorem emit_rfc_apl : forall i : apitem, apitem_inv i ->
+  apl_emitted i = Some (rfc3123_count (a_oct (i_addr i))).
+Proof. intros i Hinv. rewrite (apl_emitted_eq i Hinv), significant_rfc3123. reflexivity. Qed.
+
+(* ... in words: the last emitted address octet, if any, is not zero *)
+Theorem emit_apl_no_trailing_zero : forall i : apitem, apitem_inv i ->
+  let w := takeN (addr_significant (a_oct (i_addr i))) (a_oct (i_addr i)) in
+  w = [] \/ exists x, nthN (lenN w - 1) w = Some x /\ x <> 0.
 Proof.
-  intros e st Hinv cnt.
-  split; [rewrite (enc_ecs_eq e st (proj1 Hinv)); reflexivity|].
-  split.
-  - destruct (ecs_wire_body e) as [_ H]. rewrite H. fold cnt. rewrite lenN_takeN_, (addr_wf_len _ (proj1 Hinv)).
-    pose proof (emit_count_le (ecs_prefix e) (addr_size (e_addr e))) as Hc. fold cnt in Hc. lia.
-  - intros s W Hr. exact (proj2 (emit_roundtrip_ecs e s Hinv W Hr)).
+  intros i _ w. destruct (addr_significant_spec (a_oct (i_addr i))) as (H1 & _ & [H3|(x & Hx1 & Hx2)]).
+  - left. unfold w. rewrite H3. reflexivity.
+  - right. exists x. split; [|exact Hx2].
+    assert (Hw : lenN w = addr_significant (a_oct (i_addr i))) by (unfold w; rewrite lenN_takeN_; lia).
+    rewrite Hw. unfold nthN in *. unfold w, takeN.
+    destruct (N.eq_dec (addr_significant (a_oct (i_addr i))) 0) as [E0|E0].
+    + exfalso. rewrite E0 in Hx1. rewrite E0 in H1.
+      destruct (addr_significant_spec (a_oct (i_addr i))) as (_ & Hz & _). rewrite E0 in Hz.
+      change (dropN 0 (a_oct (i_addr i))) with (a_oct (i_addr i)) in Hz.
+      destruct (a_oct (i_addr i)) as [|y r]; [discriminate Hx1|].
+      cbn [forallb] in Hz. apply andb_true_iff in Hz. destruct Hz as [Hy _]. apply N.eqb_eq in Hy.
+      change (nth_opt (N.to_nat (0 - 1)) (y :: r)) with (Some y) in Hx1. injection Hx1 as <-. apply Hx2. symmetry. exact Hy.
+    + rewrite ListN.nth_opt_firstn by lia. exact Hx1.
+Qed.
+
+(* ECS: what remains of known finding KF2 — a non-zero address octet beyond the ceil(source / 8)
+   octets that RFC 7871 mandates; such a value is written up to that octet so that no set bit is lost *)
+Definition ecs_known_class (e : ecs) : Prop := (e_src e + 7) / 8 < addr_significant (a_oct (e_addr e)).
+
+Lemma ecs_emitted_eq (e : ecs) : ecs_inv e ->
+  ecs_emitted e = Some (N.max (addr_significant (a_oct (e_addr e))) ((e_src e + 7) / 8)).
+Proof.
+  intros Hinv. unfold ecs_emitted.
+  rewrite (enc_ecs_eq e e_init (proj1 Hinv) (ecs_inv_src e Hinv)). cbn [e_buf e_init app].
+  pose proof (ecs_count_le e (proj1 Hinv) (ecs_inv_src e Hinv)) as Hc.
+  rewrite <- (addr_wf_len _ (proj1 Hinv)) in Hc.
+  f_equal. unfold ecs_wire. cbv zeta. rewrite !lenN_app_, lenN_takeN_.
+  unfold u16b, lenN at 1 2 3 4 5. cbn [length]. unfold ecs_count, emit_count in *. lia.
+Qed.
+
+(* outside that class: exactly the RFC 7871 count *)
+Theorem emit_rfc_ecs : forall e : ecs, ecs_inv e -> ~ ecs_known_class e ->
+  ecs_emitted e = Some (rfc7871_count (e_src e)).
+Proof.
+  intros e Hinv Hn. rewrite (ecs_emitted_eq e Hinv). unfold ecs_known_class in Hn. unfold rfc7871_count.
+  f_equal. lia.
+Qed.
+
+(* the class needs a scope prefix longer than the source prefix *)
+Theorem known_class_needs_scope : forall e : ecs, ecs_inv e -> ecs_known_class e -> e_src e < e_scope e.
+Proof.
+  intros e [Hwf Hok] Hc. unfold ecs_known_class in Hc.
+  destruct (N.lt_ge_cases (e_src e) (e_scope e)) as [Hlt|Hge]; [exact Hlt|exfalso].
+  replace (N.max (e_src e) (e_scope e)) with (e_src e) in Hok by lia.
+  pose proof (significant_within_prefix (e_addr e) (e_src e) Hwf Hok) as H. lia.
+Qed.
+
+Theorem emit_rfc_ecs_scope_le : forall e : ecs, ecs_inv e -> e_scope e <= e_src e ->
+  ecs_emitted e = Some (rfc7871_count (e_src e)).
+Proof.
+  intros e Hinv Hle. apply (emit_rfc_ecs e Hinv). intros Hc.
+  pose proof (known_class_needs_scope e Hinv Hc) as H. lia.
+Qed.
+
+(* -- the witness of the remaining class: 10.1.0.0, source 8, scope 24 -- *)
+Definition w_ecs_scope : ecs :=
+  {| e_src := 8; e_scope := 24; e_addr := {| a_fam := 1; a_oct := [10; 1; 0; 0] |} |}.
+
+Lemma w_ecs_scope_inv : ecs_inv w_ecs_scope.
+Proof.
+  assert (W : addr_wf (e_addr w_ecs_scope)).
+  { split; [left; split; reflexivity|]. repeat constructor. }
+  split; [exact W|]. apply check_prefix_ok; [exact W|vm_compute; reflexivity].
+Qed.
+
+Theorem emit_rfc_ecs_known_refuted :
+  ecs_inv w_ecs_scope /\ ecs_known_class w_ecs_scope /\
+  ecs_emitted w_ecs_scope = Some 2 /\ rfc7871_count 8 = 1 /\
+  ~ (forall e, ecs_inv e -> ecs_emitted e = Some (rfc7871_count (e_src e))).
+Proof.
+  split; [exact w_ecs_scope_inv|].
+  split; [unfold ecs_known_class; vm_compute; reflexivity|].
+  split; [vm_compute; reflexivity|]. split; [reflexivity|].
+  intros H. specialize (H w_ecs_scope w_ecs_scope_inv). vm_compute in H. discriminate H.
 Qed.
